@@ -248,7 +248,11 @@ structure WF (db : Db) : Prop where
 
 theorem wf_empty : WF Db.empty := ⟨by simp [Db.empty], by simp [Db.empty]⟩
 
-theorem startJob_wf (db : Db) (id : Nat) (ex : Option Nat) (h : WF db) : WF (startJob db id ex) := by
+/-- `record_job_start` leaves `call_hash` empty (decided on the regenerated `startWritesCallHash`) -/
+theorem startCallHash_none (known : Option Nat) : startCallHash known = none := by
+  simp [startCallHash, startWritesCallHash]
+
+theorem startJob_wf (db : Db) (id : Nat) (ex : Option Nat) (known : Option Nat) (h : WF db) : WF (startJob db id ex known) := by
   unfold startJob
   split
   · exact h
@@ -257,7 +261,7 @@ theorem startJob_wf (db : Db) (id : Nat) (ex : Option Nat) (h : WF db) : WF (sta
     simp only [List.mem_append, List.mem_singleton] at hj
     rcases hj with hj | hj
     · exact h.jobShape j hj
-    · subst hj; simp
+    · subst hj; simp [startCallHash_none]
 
 theorem recStep_wf (db : Db) (op : RecOp) (h : WF db) : WF (recStep db op) := by
   cases op with
@@ -294,17 +298,17 @@ theorem recStep_wf (db : Db) (op : RecOp) (h : WF db) : WF (recStep db op) := by
             simp only [hc] at this ⊢
             refine ⟨this.1, ?_⟩
             rw [alookup_append_isSome _ _ _ this.2]; exact this.2
-  | jobStart id ex => exact startJob_wf db id ex h
+  | jobStart id ex known => exact startJob_wf db id ex known h
   | jobEnd id c ch =>
     simp only [recStep]
     split
     · exact h
     · rename_i hch
-      have h' := startJob_wf db id none h
-      have hcalls : (startJob db id none).calls = db.calls := by
+      have h' := startJob_wf db id none (some ch) h
+      have hcalls : (startJob db id none (some ch)).calls = db.calls := by
         unfold startJob; split <;> rfl
       refine ⟨?_, ?_⟩
-      · have hvals : (startJob db id none).values = db.values := by
+      · have hvals : (startJob db id none (some ch)).values = db.values := by
           unfold startJob; split <;> rfl
         intro p hp
         simp only [hcalls, hvals] at hp ⊢
@@ -349,7 +353,8 @@ theorem wf_recInv (db : Db) (h : WF db) (j : JobRec) (hj : j ∈ db.jobs) : RecI
 /-- every Execution row points at an existing job row -/
 def ExecRooted (db : Db) : Prop := ∀ e ∈ db.execs, ∃ j ∈ db.jobs, j.id = e.2
 
-theorem startJob_rooted (db : Db) (id : Nat) (ex : Option Nat) (h : ExecRooted db) : ExecRooted (startJob db id ex) := by
+theorem startJob_rooted (db : Db) (id : Nat) (ex : Option Nat) (known : Option Nat) (h : ExecRooted db) :
+    ExecRooted (startJob db id ex known) := by
   unfold startJob
   split
   · exact h
@@ -364,18 +369,18 @@ theorem startJob_rooted (db : Db) (id : Nat) (ex : Option Nat) (h : ExecRooted d
       · obtain ⟨j, hj, hid⟩ := h e he
         exact ⟨j, List.mem_append_left _ hj, hid⟩
       · subst he
-        exact ⟨⟨id, true, false, none⟩, by simp, rfl⟩
+        exact ⟨⟨id, true, false, startCallHash known⟩, by simp, rfl⟩
 
 theorem recStep_rooted (db : Db) (op : RecOp) (h : ExecRooted db) : ExecRooted (recStep db op) := by
   cases op with
   | recordValue vh e => simp only [recStep]; split <;> exact h
   | recordCallNode ch vh => simp only [recStep]; split; exact h; split <;> exact h
-  | jobStart id ex => exact startJob_rooted db id ex h
+  | jobStart id ex known => exact startJob_rooted db id ex known h
   | jobEnd id c ch =>
     simp only [recStep]
     split
     · exact h
-    · have h' := startJob_rooted db id none h
+    · have h' := startJob_rooted db id none (some ch) h
       intro e he
       obtain ⟨j, hj, hid⟩ := h' e he
       refine ⟨if j.id == id then { j with endNull := false, cached := c, callHash := some ch } else j, ?_, ?_⟩
